@@ -192,8 +192,7 @@ def comprehension(ex, n, st, kind):
         try:
             r = ex.freeze(ex.ev(n.elt, s2), s2)
         finally:
-            del ex.obls[saved:]
-            ex._obn = savedn
+            ex.rollback(saved, savedn)
             E.sink = old
         return s2, r
     if items is not None:
